@@ -38,16 +38,20 @@ class HasCell:
 
     @cell.setter
     def cell(self, cell: Cell | None) -> None:
+        old_cell = self._mesa_cell
+        if cell is old_cell:
+            return
+
+        # add to new cell first: a full cell raises here, before anything has changed
+        if cell is not None:
+            cell.add_agent(self)
+
         # remove from current cell
-        if self.cell is not None:
-            self.cell.remove_agent(self)
+        if old_cell is not None:
+            old_cell.remove_agent(self)
 
         # update private attribute
         self._mesa_cell = cell
-
-        # add to new cell
-        if cell is not None:
-            cell.add_agent(self)
 
 
 class BasicMovement:
